@@ -159,6 +159,30 @@ int tk13_seal(tk13_keys_t *k, int itype, const unsigned char *pt, int ptlen, uns
     return 5 + bl;
 }
 
+/* seals innerlen bytes exactly as given: no content type is appended, so an empty or all-padding TLSInnerPlaintext can be made */
+int tk13_seal_raw(tk13_keys_t *k, const unsigned char *inner, int innerlen, unsigned char *rec)
+{
+    EVP_CIPHER_CTX *c = EVP_CIPHER_CTX_new();
+    unsigned char n[12], dummy = 0;
+    int bl = innerlen + 16, ol = 0, fl = 0, ok;
+    rec[0] = 23; rec[1] = 3; rec[2] = 3; rec[3] = (unsigned char) (bl >> 8); rec[4] = (unsigned char) bl;
+    nonce_of(k, n);
+    ok = EVP_EncryptInit_ex(c, cipher_of(k), NULL, NULL, NULL) &&
+         EVP_CIPHER_CTX_ctrl(c, EVP_CTRL_AEAD_SET_IVLEN, 12, NULL) &&
+         EVP_EncryptInit_ex(c, NULL, NULL, k->key, n) &&
+         EVP_EncryptUpdate(c, NULL, &ol, rec, 5) &&
+         EVP_EncryptUpdate(c, rec + 5, &ol, innerlen ? inner : &dummy, innerlen) &&
+         EVP_EncryptFinal_ex(c, rec + 5 + ol, &fl) &&
+         EVP_CIPHER_CTX_ctrl(c, EVP_CTRL_AEAD_GET_TAG, 16, rec + 5 + innerlen);
+    EVP_CIPHER_CTX_free(c);
+    if (!ok)
+    {
+        return -1;
+    }
+    k->seq++;
+    return 5 + bl;
+}
+
 /* verify_data = HMAC(finished_key, transcript_hash), finished_key = HKDF-Expand-Label(secret, "finished", "", Hash.length) */
 int tk13_finished(const tk13_keys_t *k, const unsigned char *thash, unsigned char *vd)
 {
